@@ -205,7 +205,7 @@ def run(rep, ctx):
              "both branches read the same number of terms (%s)" % ({render(call_args(x)[0]) for x in rls}))
     oh_skip = one("mp::internal::NLReader::ObjHandler::SkipExpr", lambda f: "SolverNLHandlerImpl" in f.full)
     r = [x for x in oh_skip.walk() if x["k"] == "ReturnStmt"]
-    e = strip(kids(r[0])[0]) if r else None
+    e = strip(expand_locals(oh_skip, kids(r[0])[0], 0, True)) if r else None       # a naming local is looked through
     ok = e is not None and e["k"] == "UnaryOperator" and e.get("op") == "!" and \
         strip(kids(e)[0]).get("callee", "").endswith("::NeedObj") and \
         strip(call_args(strip(kids(e)[0]))[0]).get("declId") == oh_skip.params[0]["declId"]
@@ -214,7 +214,7 @@ def run(rep, ctx):
     calls = [x for x in oh_on.walk() if x["k"] == "CXXMemberCallExpr" and x.get("callee", "").endswith("::OnLinearObjExpr")]
     ok = False
     if len(calls) == 1:
-        a = strip(call_args(calls[0])[0])
+        a = strip(expand_locals(oh_on, call_args(calls[0])[0], 0, True))
         ok = a["k"] == "CXXMemberCallExpr" and a.get("callee", "").endswith("::resulting_obj_index") and \
             strip(call_args(a)[0]).get("declId") == oh_on.params[0]["declId"]
     g1.check(ok, "G|resulting-index", short_loc(oh_on.loc),
